@@ -57,6 +57,13 @@ def tuple_(rng, hostile=0.0):
 		p['nonce'] = b'n0nce'
 	p['nc'] = rng.choice((b'00000001', b'0000000a', p['nc']))
 	p['method'] = rng.choice((b'GET', b'POST', b'HEAD', p['method']))
+	if rng.random() < 0.1:
+		p['entity_body'] = bytes(rng.randrange(256) for _ in range(97)) * rng.choice((42, 43, 84, 85))      # around 4096 / 8192 octets
+		p['entity_body'] = p['entity_body'][:rng.choice((4095, 4096, 4097, 8192, 12288))]
+	if rng.random() < 0.1:
+		# percent signs in the values that enter the digest (they are formatted into it, not format strings themselves)
+		for f_ in rng.sample(['nonce', 'cnonce', 'nc', 'realm', 'username'], 2):
+			p[f_] = rng.choice((b'100%', b'a%%b', b'%s', b'%d%%', b'ab%20cd', b'%(x)s'))
 	if rng.random() < 0.3:
 		# request-targets as clients send them: escapes in either letter case, empty queries, percent signs - an octet string, not normalised
 		p['uri'] = rng.choice((b'/%7Emufasa/x', b'/search?q=', b'/index.html?', b'/a%2fb', b'/dir/my%20file.html', b'/s?q=100%25&lang=de', b'/literal%%percent', b'/A/../b', b'//x//y', b'*', b'http://H.example:80/p', b'/a?b#c'))
